@@ -75,6 +75,16 @@ def meas_strategy(tier, shard=0, nshards=1):
     return batch_case(tier, shard, nshards, with_fields=False)
 
 
+def _meas_tol(nm, kind):
+    """Same floating-point operations in a different order of the batch axis: 1e-12, except for the energies that are not computed in
+    plain float64 arithmetic: the hand-coded CI energies contain float32 / complex64 casts, and the AD kinds take a second *finite
+    difference* of overlaps with step 1e-4, which amplifies the last-bit differences XLA's batch-shape dependent fusion leaves in the
+    overlaps by 1/eps^2 = 1e8 (observed: 1.3e-8 relative between n_batch = 1 and 3)."""
+    if nm == "energy" and (kind in ("cisd", "ucisd") or kind in gens.AD_KINDS):
+        return 2e-6
+    return 1e-12
+
+
 def meas_body(ctx, case):
     kind, norb, nelec = case["kind"], int(case["norb"]), (int(case["nelec"][0]), int(case["nelec"][1]))
     ups, dns = _stack(case)
@@ -106,12 +116,12 @@ def meas_body(ctx, case):
             if x.shape[0] != nw:
                 ctx.fail(f"measure:shape:{kind}:{nm}", case, f"{nm} has shape {x.shape} for {nw} walkers")
                 return
-            ctx.check_close(f"measure:not-equivariant:{kind}:{nm}", case, f"{nm}(perm batch) - perm {nm}(batch) [{kind}]", y, x[perm], 1e-6 if (nm == "energy" and kind in ("cisd", "ucisd")) else 1e-12, float(np.max(np.abs(x))) + 1e-300)
+            ctx.check_close(f"measure:not-equivariant:{kind}:{nm}", case, f"{nm}(perm batch) - perm {nm}(batch) [{kind}]", y, x[perm], _meas_tol(nm, kind), float(np.max(np.abs(x))) + 1e-300)
     if len(outs) == 2:
         (a, _), (b, _) = outs[nb1], outs[nb2]
         for nm, x, y in zip(names, a, b):
             # the hand-coded CI energies contain float32 / complex64 casts: a different batch shape changes XLA's rounding there
-            tol = 1e-6 if (nm == "energy" and kind in ("cisd", "ucisd")) else 1e-12
+            tol = _meas_tol(nm, kind)
             ctx.check_close(f"measure:n_batch-dependence:{kind}:{nm}", case, f"{nm} n_batch={nb1} vs {nb2} [{kind}]", x, y, tol, float(np.max(np.abs(x))) + 1e-300)
 
 
